@@ -15,12 +15,16 @@ tie:   (1) sanitize_table_prefix and the five Tables classes on adversarial ids 
        (4) process-wide state: gen/ProcShared_gen.v (every mutable container bound in a class body / at module
            level of the component modules + the kinds of access made to it) vs the containers the components
            of two real apps are SEEN to share (object identity); oracle on the implementation: an operation of
-           app A changes such a container only under A's own id.
+           app A changes such a container only under A's own id;
+       (5) id channels: apps whose id arrives through the builder, config_values, a config file, file + values,
+           PYNENC__APP_ID or not at all (default id), pairwise in one process with an empty / a populated
+           instance registry: own id, own object, pairwise isolation read-outs.
 """
 from __future__ import annotations
 
 import json
 import os
+import pickle
 import re
 import sqlite3
 
@@ -55,7 +59,11 @@ MANIFEST = {
             "of reference keys only another app created, app-info registration, cron marks, trigger-run claims) and the read-out resolves every "
             "reference key of the universe through every app, reads app info / discovery, registered invocations, runners, valid conditions; "
             "what an app reads about itself must be its own; the containers that the components of two apps really share (object identity, "
-            "walked from the component objects) are compared with the generated list and may only change under the acting app's id.",
+            "walked from the component objects) are compared with the generated list and may only change under the acting app's id; every ordered "
+            "pair of the channels through which an id reaches an app (builder, config_values, config file alone, config file + values, "
+            "PYNENC__APP_ID, no id = default id) is built in one process with an empty and with a populated instance registry (pickle round "
+            "trip of each app, the registry never cleared between the apps of a case): each app reports its own id, is its own object, and "
+            "the isolation read-outs hold pairwise.",
     "note": "Trusted: Coq kernel; AST translator (fail-closed); SQLite's LIKE and sqlite_master; hashlib (the Gallina SHA-256 is compared "
             "with it on every id used). Modelled, not verified: what each component API writes (the model records one row per low-level "
             "write; high-level task calls are covered by the oracle only). In-process isolation: the model covers the process-wide containers of "
@@ -267,13 +275,22 @@ WRITES = {  # component label -> (table suffix that receives exactly one row, ac
 }
 
 
+ENV_ID = "PYNENC__APP_ID"
+CHANNELS = ["builder", "values", "file", "file+values", "env", "default"]
+
+
 class Apps:
     """ids -> real apps sharing one SQLite file (kind 'sqlite') or one process with in-memory components."""
 
-    def __init__(self, kind: str, scratch: str, ids: list[str], tag: str):
+    def __init__(self, kind: str, scratch: str, ids: list[str], tag: str, channels: list[str] | None = None, registry: bool = False):
+        """channels[k]: how the id reaches app k (CHANNELS); registry: every app goes through a pickle round trip right
+        after its construction, which registers it in the process-wide instance registry (what every process-runner
+        child does), so that the later constructors run against a populated registry.  The registry is emptied once,
+        before the first app of the case - never between the apps."""
         from pynenc import Pynenc, PynencBuilder
         from harness import tasks_basic
         Pynenc._clear_instances()
+        os.environ.pop(ENV_ID, None)
         self.kind, self.ids = kind, ids
         self.db = os.path.join(scratch, f"shared_{tag}.db")
         self.apps, self.tasks, self.big_tasks, self.errors = [], [], [], []
@@ -282,16 +299,52 @@ class Apps:
         self.own_refs: dict[int, list[str]] = {}
         self.claimed: set[int] = set()
         self.anomalies: list[str] = []
-        for i in ids:
-            b = PynencBuilder().app_id(i)
+        for k, i in enumerate(ids):
+            ch = channels[k] if channels else "builder"
+            app = None
+            b = PynencBuilder()
             b = b.sqlite(sqlite_db_path=self.db) if kind == "sqlite" else b.memory()
-            app = b.custom_config(logging_level="critical", cached_status_time=0.0).build()
+            b = b.custom_config(logging_level="critical", cached_status_time=0.0)
             try:
-                for attr in COMP_ATTR.values():
-                    getattr(app, attr)
-                self.errors.append(None if app.app_id == i else f"app_id became {app.app_id!r}")
+                if ch == "builder":
+                    app = b.app_id(i).build()
+                else:
+                    backend = dict(b._config)
+                    path = os.path.join(scratch, f"conf_{tag}_{k}.json")
+                    if ch == "values":
+                        app = Pynenc(config_values=dict(backend, app_id=i))
+                    elif ch == "file":                       # everything, the id included, only in the file
+                        json.dump(dict(backend, app_id=i), open(path, "w"))
+                        app = Pynenc(config_filepath=path)
+                    elif ch == "file+values":                # the id only in the file, the rest in config_values
+                        json.dump({"app_id": i}, open(path, "w"))
+                        app = Pynenc(config_values=backend, config_filepath=path)
+                    elif ch == "env":
+                        os.environ[ENV_ID] = i
+                        app = Pynenc(config_values=backend)
+                    elif ch == "default":                    # no id anywhere: ids[k] is the default id
+                        app = Pynenc(config_values=backend)
+                    else:
+                        raise ValueError(ch)
+                def identity(a):
+                    e = None if a.app_id == i else f"app_id became {a.app_id!r}"
+                    same = [j for j, other in enumerate(self.apps) if other is a and ids[j] != i]
+                    if same:
+                        e = (e + " and " if e else "") + f"the constructor handed out the object of app {ids[same[0]]!r}"
+                    return e
+                err = identity(app)
+                if registry and not err:
+                    app = pickle.loads(pickle.dumps(app))
+                    err = identity(app)
+                if not err:
+                    for attr in COMP_ATTR.values():
+                        getattr(app, attr)
+                self.errors.append(err and f"identity: id given through {ch!r}{' with a populated instance registry' if registry else ''}: {err}")
             except Exception as ex:  # noqa: BLE001 - reported as an observation
                 self.errors.append(f"{type(ex).__name__}: {ex}")
+                app = app or b.app_id(i).build()
+            finally:
+                os.environ.pop(ENV_ID, None)
             self.apps.append(app)
             self.tasks.append(tasks_basic.bind(app, tasks_basic.add_one))
             self.big_tasks.append(tasks_basic.bind(app, tasks_basic.ident))
@@ -604,15 +657,21 @@ def classify(apps: Apps, op, victim: int, vocab) -> str:
 SHARED_SEEN: set[str] = set()
 
 
-def run_case(ctx: Ctx, scratch: str, kind: str, ids: list[str], ops: list, vocab, tag: str, verbose: bool = False):
+def run_case(ctx: Ctx, scratch: str, kind: str, ids: list[str], ops: list, vocab, tag: str, verbose: bool = False,
+             channels: list[str] | None = None, registry: bool = False):
     """Runs the sequence on real apps; oracle = non-interference + table-list check. Returns final row counts."""
-    apps = Apps(kind, scratch, ids, tag)
+    apps = Apps(kind, scratch, ids, tag, channels, registry)
     try:
         replay = {"kind": "apps", "backend": kind, "ids": ids, "ops": ops}
+        if channels or registry:
+            replay.update(channels=channels, registry=registry)
         for k, e in enumerate(apps.errors):
             if e:
-                key = "reserved-name:sqlite_" if "reserved for internal use" in e else f"app-construction:{kind}"
-                ctx.violation(key, f"app with id {ids[k]!r} cannot be built on {kind}: {e}", replay)
+                key = "reserved-name:sqlite_" if "reserved for internal use" in e else \
+                    f"app-identity:{channels[k] if channels else 'builder'}" if e.startswith("identity:") else f"app-construction:{kind}"
+                if verbose:
+                    print(f"  app {k} ({ids[k]!r}): {e}")
+                ctx.violation(key, f"app with id {ids[k]!r} among {ids} cannot be built on {kind}: {e}", replay)
                 return None
         expected_master = None
         if kind == "sqlite":
@@ -802,6 +861,47 @@ def gen_proc_cases(ctx: Ctx, ids: list[str], vocab):
     return cases
 
 
+def run_channels(ctx: Ctx, scratch: str, vocab) -> None:
+    """Every ordered pair of configuration channels through which an id can reach an app (builder, config_values,
+    config file alone, config file + values, PYNENC__APP_ID, no id at all = the default id), with an empty and with
+    a populated instance registry, on both backends: each app reports its own id, is its own object, and the
+    isolation read-outs hold pairwise over a short operation sequence."""
+    from pynenc.conf.config_pynenc import ConfigPynenc
+    os.environ.pop(ENV_ID, None)
+    default_id = ConfigPynenc().app_id
+    rng = ctx.rng
+    names = ["billing", "Billing", "bill-ing", "bill_ing", "x'; DROP TABLE y; --", default_id + "_", default_id.upper(), "shop"]
+    ops_pool = [
+        [["write", 1, "broker"], ["write", 0, "broker"], ["store", 1], ["purge_all", 1], ["call", 0], ["purge", 0, "broker"]],
+        [["call", 1], ["store", 0], ["probe", 1, 0], ["appinfo", 1], ["purge", 1, "state_backend"], ["purge_all", 0]],
+    ]
+    cases = []
+    for reg in (True, False):
+        for a in CHANNELS:
+            for b in CHANNELS:
+                if a == b == "default":
+                    continue
+                ia = default_id if a == "default" else rng.choice(names)
+                ib = default_id if b == "default" else rng.choice([n for n in names if n != ia])
+                cases.append(([ia, ib], [a, b], reg))
+    if not ctx.thorough:                      # all pairs with a populated registry, a seeded third of the others
+        cases = [c for c in cases if c[2]] + rng.sample([c for c in cases if not c[2]], 12)
+    third = [([default_id, "billing", "shop"], ["default", "file", "env"], True),
+             (["shop", default_id, "billing"], ["values", "default", "file+values"], True)]
+    hist: dict = {}
+    n = 0
+    for ids, chans, reg in cases + third:
+        for kind in (("sqlite", "mem") if ctx.thorough or reg else (rng.choice(("sqlite", "mem")),)):
+            n += 1
+            run_case(ctx, scratch, kind, ids, ops_pool[n % 2] if len(ids) == 2 else ops_pool[0] + [["write", 2, "client"], ["purge_all", 2]],
+                     vocab, f"ch{n}", channels=chans, registry=reg)
+            for c in chans:
+                hist[c] = hist.get(c, 0) + 1
+    ctx.count(n, len(cases) + len(third))
+    ctx.notes["id_channels"] = {"cases": n, "channel_uses": hist, "default_id": default_id,
+                                "with_populated_registry": sum(1 for c in cases + third if c[2]), "with_empty_registry": sum(1 for c in cases if not c[2])}
+
+
 def memo_digest(ids: list[str]) -> str:
     """`let Hm := ...` : sha256_hex with the digests of the listed ids computed once (vm_compute is call-by-value);
     extensionally the same function, so the evaluated term is the model's."""
@@ -964,6 +1064,9 @@ def main(ctx: Ctx) -> int:
         run_purge_selection(ctx, scratch, vocab)
         run_apps(ctx, scratch, ids, vocab)
         gen_guard(ctx)
+        ctx.log("app cases run")
+        run_channels(ctx, scratch, vocab)
+        ctx.log("id channels run")
         run_shared_fact(ctx, info_shared)
         if not ctx.proof.ok or info.get("degraded") or info.get("hash_len", 8) < 8:
             search_collision(ctx, scratch, vocab, 1 << 18)
@@ -990,6 +1093,8 @@ def main(ctx: Ctx) -> int:
              "of 2-3 ids with 4-14 operations, each run on one SQLite file and in one process, + fixed and seeded families of 2-3 ids "
              "with 5-12 operations through the caching layers (store / store the same content / read back / probe a foreign reference / task call "
              "with a large argument / app info / cron mark / trigger-run claim / low-level write / purge of a component / purge of the app); "
+             "id channels: all ordered pairs of 6 channels with a populated registry (+ a seeded third with an empty one in the quick tier, all in "
+             "thorough) and two triples, on both backends; "
              "distinct_nontrivial = distinct ids + distinct prefixes tried in the selection run + distinct app cases + containers seen shared")
 
 
@@ -1033,7 +1138,8 @@ def replay(ctx: Ctx, path: str) -> int:
     scratch = world.scratch_dir()
     try:
         print("ids", rp["ids"], "backend", rp["backend"])
-        res = run_case(ctx, scratch, rp["backend"], rp["ids"], rp["ops"], vocab, "replay", verbose=True)
+        res = run_case(ctx, scratch, rp["backend"], rp["ids"], rp["ops"], vocab, "replay", verbose=True,
+                       channels=rp.get("channels"), registry=bool(rp.get("registry")))
         for v in ctx.violations + ctx.known_hits:
             print("observed:", v["key"], "-", v["what"])
         if res:
